@@ -9,7 +9,9 @@
   Spec  = MongoModel.Spec.Proj.project / slice (the rules of the property text) and the relation
           `sub` (o ⊑ d)
   D     = MongoModel.Spec.Proj.inD (decidable; its negation is the list of named exclusion
-          classes of Spec/ProjectDomain.lean)
+          classes of Spec/ProjectDomain.lean — scope limits only: the known findings mixedarray,
+          exclscalar, aggdroparr, slicelimit, sliceskip, slicealone were repaired in the library and their
+          classes, `_full_fails` theorems and hypotheses are gone)
 -/
 import Proofs.C12
 
@@ -19,6 +21,19 @@ open MongoModel MongoModel.Spec.Proj
 def isError {α : Type} : R α → Bool
   | .error _ => true
   | .ok _ => false
+
+/-- the answer is the value `v` (decidable form, for the concrete examples) -/
+def okIs : R Val → Val → Bool
+  | .ok w, v => Val.beq w v
+  | .error _, _ => false
+
+def okAre : R (List Val) → List Val → Bool
+  | .ok ws, vs => Val.beq (.arr ws) (.arr vs)
+  | .error _, _ => false
+
+def errIs {α : Type} : R α → Err → Bool
+  | .error e, e' => e == e'
+  | .ok _, _ => false
 
 /-! ### a projection never selects, reorders, alters or invents -/
 
@@ -53,81 +68,59 @@ example : isError (copyOnlyFields
 
 /-! ### inclusion and exclusion are exact -/
 
-/-- Full strength: wherever the rule speaks of an inclusion, the code returns what the rule says
-    (`_id` listed last). -/
-def incl_exact_full : Prop :=
-  ∀ p d s, project p d = some s → modeOf p = some true → copyOnlyFields d p = .ok (idLast s)
-
-/-- False of the code as it stands (known finding `mixedarray`): `{'l.x': 1}` over
-    `l: [1, {x: 1, y: 2}]` raises AttributeError instead of returning `l: [{x: 1}]`. -/
-theorem incl_exact_full_fails : ¬ incl_exact_full := by
-  intro h
-  let p : Val := .doc [("l.x", .int 1)]
-  let d : Val := .doc [("_id", .int 1), ("l", .arr [.int 1, .doc [("x", .int 1), ("y", .int 2)]])]
-  have hs : (project p d).isSome = true := by decide +kernel
-  have he : isError (copyOnlyFields d p) = true := by decide +kernel
-  cases hp : project p d with
-  | none => simp [hp] at hs
-  | some s =>
-    have := h p d s hp (by decide +kernel)
-    rw [this] at he
-    simp [isError] at he
-
-/-- **incl_exact (on D).** An inclusion returns `_id` (unless excluded) plus exactly the named
-    paths — descending through sub-documents and through each sub-document element of arrays —
-    and nothing else. -/
-theorem incl_exact_partial (p d : Val) (hD : inD p d = true) (hm : modeOf p = some true) :
+/-- **incl_exact.** An inclusion returns `_id` (unless excluded) plus exactly the named paths —
+    descending through sub-documents and through each element of arrays (sub-documents are
+    projected, nested arrays element by element, scalars have nothing to show) — and nothing
+    else.  D holds scope limits only (Spec/ProjectDomain.lean); no condition on the document
+    besides its being a dict.  (Before the repairs of `mixedarray` this was false on arrays
+    holding a scalar and D excluded them.) -/
+theorem incl_exact (p d : Val) (hD : inD p d = true) (hm : modeOf p = some true) :
     ∃ s, project p d = some s ∧ copyOnlyFields d p = .ok (idLast s) := by
   obtain ⟨s, h1, h2⟩ := Proofs.C12.exact_main p d (List.isEmpty_iff.mp hD)
   exact ⟨s, h1, by simpa [hm] using h2⟩
 
+/-- inside D: an array of sub-documents, an array mixing scalars, sub-documents and a nested
+    array, a path running into a scalar -/
 example : inD
-    (.doc [("a.b", .int 1), ("c.d.e", .bool true), ("_id", .int 0)])
+    (.doc [("a.b", .int 1), ("c.d.e", .bool true), ("l.x", .int 1), ("s.q", .int 1), ("_id", .int 0)])
     (.doc [("_id", .int 7), ("a", .arr [.doc [("b", .int 1), ("z", .int 2)], .doc [("z", .int 3)]]),
            ("c", .doc [("d", .arr [.doc [("e", .null), ("f", .int 1)]]), ("g", .int 5)]),
+           ("l", .arr [.int 1, .doc [("x", .int 1), ("y", .int 2)],
+                       .arr [.doc [("x", .int 3), ("y", .int 4)], .int 7], .null]),
            ("s", .str "x")]) = true
-    ∧ modeOf (.doc [("a.b", .int 1), ("c.d.e", .bool true), ("_id", .int 0)]) = some true := by
+    ∧ modeOf (.doc [("a.b", .int 1), ("c.d.e", .bool true), ("l.x", .int 1), ("s.q", .int 1),
+        ("_id", .int 0)]) = some true := by
   decide +kernel
 
-/-- Full strength for exclusions (and for the "whole document" forms). -/
-def excl_exact_full : Prop :=
-  ∀ p d s, project p d = some s → modeOf p ≠ some true → copyOnlyFields d p = .ok s
+/-- the former witness of `mixedarray`: `{'l.x': 1}` over `l: [1, {x: 1, y: 2}]` -/
+example : okIs (copyOnlyFields
+    (.doc [("_id", .int 1), ("l", .arr [.int 1, .doc [("x", .int 1), ("y", .int 2)]])])
+    (.doc [("l.x", .int 1)])) (.doc [("l", .arr [.doc [("x", .int 1)]]), ("_id", .int 1)]) = true := by
+  decide +kernel
 
-def hasField (k : String) : Val → Bool
-  | .doc fs => dhas k fs
-  | _ => false
-
-/-- False of the code as it stands (known finding `exclscalar`): `{'s.q': 0}` removes `s`
-    itself when `s` is a scalar. -/
-theorem excl_exact_full_fails : ¬ excl_exact_full := by
-  intro h
-  let p : Val := .doc [("s.q", .int 0)]
-  let d : Val := .doc [("_id", .int 1), ("s", .int 3), ("a", .int 5)]
-  have hs : (project p d).map (hasField "s") = some true := by decide +kernel
-  have hc : (copyOnlyFields d p).map (hasField "s") = .ok false := by decide +kernel
-  cases hp : project p d with
-  | none => simp [hp] at hs
-  | some s =>
-    have := h p d s hp (by decide +kernel)
-    rw [this] at hc
-    rw [hp] at hs
-    simp [Except.map] at hc hs
-    rw [hs] at hc
-    cases hc
-
-/-- **excl_exact (on D).** An exclusion removes exactly the named paths and keeps everything
-    else, in place; `None` / `{}` / `[]` return the document unchanged. -/
-theorem excl_exact_partial (p d : Val) (hD : inD p d = true) (hm : modeOf p ≠ some true) :
+/-- **excl_exact.** An exclusion removes exactly the named paths (descending the same way; a
+    scalar or null met on the way stays as it is) and keeps everything else, in place; `None` /
+    `{}` / `[]` return the document unchanged.  (Before the repairs of `exclscalar` and
+    `mixedarray` this was false where a path ran into a scalar and D excluded those documents.) -/
+theorem excl_exact (p d : Val) (hD : inD p d = true) (hm : modeOf p ≠ some true) :
     ∃ s, project p d = some s ∧ copyOnlyFields d p = .ok s := by
   obtain ⟨s, h1, h2⟩ := Proofs.C12.exact_main p d (List.isEmpty_iff.mp hD)
   exact ⟨s, h1, by simpa [hm] using h2⟩
 
 example : inD
-    (.doc [("a.b", .int 0), ("c.d.e", .bool false), ("s", .int 0)])
+    (.doc [("a.b", .int 0), ("c.d.e", .bool false), ("l.x", .int 0), ("s.q", .int 0), ("g", .int 0)])
     (.doc [("_id", .int 7), ("a", .arr [.doc [("b", .int 1), ("z", .int 2)], .doc [("z", .int 3)]]),
            ("c", .doc [("d", .arr [.doc [("e", .null), ("f", .int 1)]]), ("g", .int 5)]),
-           ("s", .str "x")]) = true
-    ∧ modeOf (.doc [("a.b", .int 0), ("c.d.e", .bool false), ("s", .int 0)]) ≠ some true := by
+           ("l", .arr [.int 1, .doc [("x", .int 1), ("y", .int 2)],
+                       .arr [.doc [("x", .int 3), ("y", .int 4)], .int 7], .null]),
+           ("s", .str "x"), ("g", .int 1)]) = true
+    ∧ modeOf (.doc [("a.b", .int 0), ("c.d.e", .bool false), ("l.x", .int 0), ("s.q", .int 0),
+        ("g", .int 0)]) ≠ some true := by
+  decide +kernel
+
+/-- the former witness of `exclscalar`: `{'s.q': 0}` over `s: 3` -/
+example : okIs (copyOnlyFields (.doc [("_id", .int 1), ("s", .int 3), ("a", .int 5)])
+    (.doc [("s.q", .int 0)])) (.doc [("_id", .int 1), ("s", .int 3), ("a", .int 5)]) = true := by
   decide +kernel
 
 /-- `_id` listed last is only a re-ordering: the output has the same fields as the rule's -/
@@ -136,37 +129,54 @@ theorem idLast_perm (fs : Fields) : ∃ gs, idLast (.doc fs) = .doc gs ∧ gs.Pe
 
 /-! ### `$slice`, `$elemMatch`, list form -/
 
-/-- Full strength: the code's `$slice` is the rule's wherever the code answers. -/
-def slice_spec_full : Prop :=
-  ∀ sv xs ys, sliceOp sv xs = .ok ys → slice sv xs = some ys
-
-/-- False of the code as it stands (known finding `slicelimit`): `$slice: [0, -1]` is answered
-    (all but the last element) instead of refused. -/
-theorem slice_spec_full_fails : ¬ slice_spec_full := by
-  intro h
-  have h1 : isError (sliceOp (.arr [.int 0, .int (-1)]) [.int 1, .int 2, .int 3]) = false := by
-    decide +kernel
-  have h2 : (slice (.arr [.int 0, .int (-1)]) [.int 1, .int 2, .int 3]).isSome = false := by
-    decide +kernel
-  cases hs : sliceOp (.arr [.int 0, .int (-1)]) [.int 1, .int 2, .int 3] with
-  | error e => simp [hs, isError] at h1
-  | ok ys => have := h _ _ ys hs; simp [this] at h2
-
-/-- **slice_spec (on D).** `$slice: n` keeps the first `n` / last `-n` elements, `$slice:
-    [skip, limit]` the `limit` elements after `skip` (from the end when negative). -/
-theorem slice_spec_partial (sv : Val) (xs : List Val) (hD : sliceReasons sv xs = []) :
-    ∃ ys, slice sv xs = some ys ∧ sliceOp sv xs = .ok ys :=
+/-- **slice_spec.** For every well-shaped operand (an int, or a pair of ints: `sliceReasons`
+    knows nothing else) and every array: `$slice: n` keeps the first `n` / last `-n` elements,
+    `$slice: [skip, limit]` the `limit` elements after `skip` (counted from the end when
+    negative, from the first element when that falls before it), and a `limit ≤ 0` — the one
+    operand the rule refuses — is refused with an OperationFailure.  (Before the repairs of
+    `slicelimit` and `sliceskip` this needed `limit > 0` and `skip ≥ -len` as hypotheses.) -/
+theorem slice_spec (sv : Val) (xs : List Val) (hD : sliceReasons sv = []) :
+    match slice sv xs with
+    | some ys => sliceOp sv xs = .ok ys
+    | none => sliceOp sv xs = .error .opFail :=
   Proofs.C12.slice_spec sv xs hD
 
-example : sliceReasons (.arr [.int (-2), .int 1]) [.int 1, .int 2, .int 3] = [] := by decide +kernel
+example : sliceReasons (.arr [.int (-7), .int 2]) = [] ∧ sliceReasons (.int (-2)) = [] ∧
+    sliceReasons (.arr [.int 0, .int (-1)]) = [] := by decide +kernel
 
-/-- **slice through find.** `find(…, {f: {$slice: sv}})` returns `f` holding that part. -/
-theorem slice_find (fs : Fields) (f : String) (sv : Val) (xs : List Val) (hf : f ≠ "_id")
-    (hxs : dget f fs = some (.arr xs)) (hD : sliceReasons sv xs = []) :
-    ∃ ys o, slice sv xs = some ys ∧
-      copyOnlyFields (.doc fs) (.doc [(f, .doc [("$slice", sv)])]) = .ok (.doc o) ∧
-      dget f o = some (.arr ys) :=
-  Proofs.C12.slice_find hf hxs hD
+/-- the former witnesses of `sliceskip` and `slicelimit` -/
+example : okAre (sliceOp (.arr [.int (-7), .int 2]) [.int 1, .int 2, .int 3, .int 4, .int 5])
+      [.int 1, .int 2] = true
+    ∧ errIs (sliceOp (.arr [.int 0, .int (-1)]) [.int 1, .int 2, .int 3, .int 4, .int 5])
+      .opFail = true := by decide +kernel
+
+/-- **slice through find.** `find(…, {f: {$slice: sv}})` returns the document with `f` holding
+    that part and every other field kept as it is, in place (`$slice` on its own is no
+    inclusion) …  (Before the repair of `slicealone` the other fields were dropped and only
+    `dget f o = some (.arr ys)` could be stated.) -/
+theorem slice_find (fs : Fields) (f : String) (sv : Val) (xs ys : List Val) (hf : f ≠ "_id")
+    (hxs : dget f fs = some (.arr xs)) (hD : sliceReasons sv = []) (hs : slice sv xs = some ys) :
+    copyOnlyFields (.doc fs) (.doc [(f, .doc [("$slice", sv)])]) =
+      .ok (.doc (dset f (.arr ys) fs)) :=
+  Proofs.C12.slice_find hf hxs hD hs
+
+/-- the former witness of `slicealone`: `{l: {$slice: 1}}` keeps `s` -/
+example : okIs (copyOnlyFields
+    (.doc [("_id", .int 1), ("l", .arr [.int 1, .int 2, .int 3]), ("s", .int 3)])
+    (.doc [("l", .doc [("$slice", .int 1)])]))
+    (.doc [("_id", .int 1), ("l", .arr [.int 1]), ("s", .int 3)]) = true := by decide +kernel
+
+example : (slice (.arr [.int (-7), .int 2]) [.int 1, .int 2, .int 3]).isSome = true := by
+  decide +kernel
+
+/-- … and refuses the query when the rule refuses the operand. -/
+theorem slice_find_refused (fs : Fields) (f : String) (sv : Val) (xs : List Val) (hf : f ≠ "_id")
+    (hxs : dget f fs = some (.arr xs)) (hD : sliceReasons sv = []) (hs : slice sv xs = none) :
+    copyOnlyFields (.doc fs) (.doc [(f, .doc [("$slice", sv)])]) = .error .opFail :=
+  Proofs.C12.slice_find_refused hf hxs hD hs
+
+example : (slice (.arr [.int 1, .int 0]) [.int 1, .int 2, .int 3]).isNone = true := by
+  decide +kernel
 
 /-- **elemMatch_first.** `find(…, {f: {$elemMatch: q}})` returns `f` holding exactly the first
     element of the array that the matcher accepts (all earlier ones being rejected), and no `f`
@@ -195,38 +205,24 @@ example : (["a.b", "c", "_id"] : List String).Nodup := by decide
 
 /-! ### the `$project` stage, and its agreement with the find path -/
 
-/-- Full strength: wherever the rule speaks, `$project` returns what the rule says. -/
-def agg_exact_full : Prop :=
-  ∀ p d s, project p d = some s → isError (aggProject [d] p) = false → aggProject [d] p = .ok [s]
-
-def fieldLen (k : String) : Val → Nat
-  | .doc fs => (match dget k fs with | some (.arr xs) => xs.length | _ => 0)
-  | _ => 0
-
-/-- False of the code as it stands (known finding `aggdroparr`): the exclusion `{'l.x': 0}` over
-    `l: [1, {x: 1, y: 2}]` returns `l: [{y: 2}]` — the scalar element is gone. -/
-theorem agg_exact_full_fails : ¬ agg_exact_full := by
-  intro h
-  let p : Val := .doc [("l.x", .int 0)]
-  let d : Val := .doc [("_id", .int 1), ("l", .arr [.int 1, .doc [("x", .int 1), ("y", .int 2)]])]
-  have hs : (project p d).map (fieldLen "l") = some 2 := by decide +kernel
-  have hc : (aggProject [d] p).map (fun rs => rs.map (fieldLen "l")) = .ok [1] := by
-    decide +kernel
-  cases hp : project p d with
-  | none => simp [hp] at hs
-  | some s =>
-    have := h p d s hp (by decide +kernel)
-    rw [this] at hc
-    rw [hp] at hs
-    simp [Except.map] at hc hs
-    rw [hs] at hc
-    cases hc
-
-/-- **agg_exact (on its domain).** The `$project` stage with a plain inclusion / exclusion
-    specification returns exactly what the rule says, fields in document order. -/
-theorem agg_exact_partial (p d : Val) (hD : aggInD p d = true) :
+/-- **agg_exact.** The `$project` stage with a plain inclusion / exclusion specification returns
+    exactly what the rule says, fields in document order; its domain holds scope limits only.
+    (Before the repair of `aggdroparr` an exclusion dropped the scalar elements of a descended
+    array and the domain excluded those documents.) -/
+theorem agg_exact (p d : Val) (hD : aggInD p d = true) :
     ∃ s, project p d = some s ∧ aggProject [d] p = .ok [s] :=
   Proofs.C12.agg_exact p d (List.isEmpty_iff.mp hD)
+
+example : aggInD (.doc [("l.x", .int 0), ("s.q", .int 0)])
+    (.doc [("_id", .int 1), ("l", .arr [.int 1, .doc [("x", .int 1), ("y", .int 2)],
+      .arr [.doc [("x", .int 3)], .int 7]]), ("s", .int 3)]) = true := by decide +kernel
+
+/-- the former witness of `aggdroparr`: `{'l.x': 0}` over `l: [1, {x: 1, y: 2}]` -/
+example : okAre (aggProject
+    [.doc [("_id", .int 1), ("l", .arr [.int 1, .doc [("x", .int 1), ("y", .int 2)]])]]
+    (.doc [("l.x", .int 0)])) [.doc [("_id", .int 1), ("l", .arr [.int 1, .doc [("y", .int 2)]])]]
+    = true := by
+  decide +kernel
 
 /-- **find_eq_agg.** On the common domain the two separately coded projection functions — the
     find path of collection.py and the `$project` stage of aggregate.py — return the same
@@ -238,12 +234,12 @@ theorem find_eq_agg (p d : Val) (hD : inD p d = true) (hA : aggInD p d = true) :
 
 example : inD
     (.doc [("a.b", .int 1), ("c.d.e", .bool true), ("_id", .int 0)])
-    (.doc [("_id", .int 7), ("a", .arr [.doc [("b", .int 1), ("z", .int 2)], .doc [("z", .int 3)]]),
+    (.doc [("_id", .int 7), ("a", .arr [.doc [("b", .int 1), ("z", .int 2)], .int 4, .doc [("z", .int 3)]]),
            ("c", .doc [("d", .arr [.doc [("e", .null), ("f", .int 1)]]), ("g", .int 5)]),
            ("s", .str "x")]) = true
     ∧ aggInD
     (.doc [("a.b", .int 1), ("c.d.e", .bool true), ("_id", .int 0)])
-    (.doc [("_id", .int 7), ("a", .arr [.doc [("b", .int 1), ("z", .int 2)], .doc [("z", .int 3)]]),
+    (.doc [("_id", .int 7), ("a", .arr [.doc [("b", .int 1), ("z", .int 2)], .int 4, .doc [("z", .int 3)]]),
            ("c", .doc [("d", .arr [.doc [("e", .null), ("f", .int 1)]]), ("g", .int 5)]),
            ("s", .str "x")]) = true := by
   decide +kernel
